@@ -121,7 +121,12 @@ Definition opts_ok (E opts : string) : Prop :=
 
 Definition card_body (name : string) (g1 : nat) (mat : string) (rho : option (nat * string))
   (g3 : nat) (E : string) : string :=
-  name ++ blanks (S g1) ++ mat ++ rho_text rho ++ blanks (S g3) ++ E.
+  name ++ blanks (S g1) ++ mat ++ rho_text rho ++ blanks g3 ++ E.
+
+(* a blank separates the material part from the expression, except that an
+   opening parenthesis may follow a density directly ("3 -2.7(1:2)") *)
+Definition sep_ok (rho : option (nat * string)) (g3 : nat) (E : string) : Prop :=
+  g3 <> 0 \/ (rho <> None /\ head_sat (fun c => Ascii.eqb c "(") E = true).
 
 Lemma digits_ok_forall ds : digits_ok ds = true -> str_forall is_digit ds = true /\ ds <> "".
 Proof.
@@ -142,15 +147,18 @@ Proof. destruct s as [|c s]; [congruence|]. cbn. intros H _. apply andb_prop in 
 
 Theorem split_card_wellformed name g1 mat rho g3 E opts :
   digits_ok name = true -> mat_ok mat rho ->
-  str_forall expr_char E = true -> head_sat nonblank E = true -> opts_ok E opts ->
-  split_card (card_body name g1 mat rho g3 E ++ opts) = Ok (blanks (S g3) ++ E, opts).
+  str_forall expr_char E = true -> head_sat nonblank E = true -> sep_ok rho g3 E -> opts_ok E opts ->
+  split_card (card_body name g1 mat rho g3 E ++ opts) = Ok (blanks g3 ++ E, opts).
 Proof.
-  intros Hname [Hmat Hrho] HE HEhd Hopts.
+  intros Hname [Hmat Hrho] HE HEhd Hsep Hopts.
   destruct (digits_ok_forall name Hname) as [Fname Nname].
   destruct (digits_ok_forall mat Hmat) as [Fmat Nmat].
-  set (G := blanks (S g3) ++ E).
-  assert (HGhd : head_sat nonblank G = false) by reflexivity.
-  assert (HGblank : blank_head G = true) by reflexivity.
+  set (G := blanks g3 ++ E).
+  assert (HGden : head_sat density_char G = false).
+  { unfold G. destruct g3 as [|g3']; [|reflexivity]. destruct Hsep as [Hs|[_ Hs]]; [congruence|].
+    cbn [blanks append]. destruct E as [|c E']; [discriminate|]. cbn in Hs. apply Ascii.eqb_eq in Hs. now subst c. }
+  assert (HGvoid : rho = None -> head_sat nonblank G = false).
+  { intros ->. unfold G. destruct g3 as [|g3']; [|reflexivity]. destruct Hsep as [Hs|[Hs _]]; congruence. }
   assert (ENe : E <> "") by (destruct E; [discriminate|discriminate]).
   (* the text before the options is quiet *)
   assert (Qrho : str_forall quiet_char (rho_text rho) = true).
@@ -167,8 +175,8 @@ Proof.
   { destruct Hopts as [->|(E0 & c & d & r & -> & Hb & -> & Hd)].
     - rewrite str_app_nil_r. now apply find_options_quiet.
     - unfold card_body in *. 
-      replace ((name ++ blanks (S g1) ++ mat ++ rho_text rho ++ blanks (S g3) ++ E0 ++ String c "") ++ String d r)
-        with ((name ++ blanks (S g1) ++ mat ++ rho_text rho ++ blanks (S g3) ++ E0) ++ String c (String d r)).
+      replace ((name ++ blanks (S g1) ++ mat ++ rho_text rho ++ blanks g3 ++ E0 ++ String c "") ++ String d r)
+        with ((name ++ blanks (S g1) ++ mat ++ rho_text rho ++ blanks g3 ++ E0) ++ String c (String d r)).
       + rewrite find_options_at; auto.
         * now rewrite ?str_app_assoc.
         * rewrite ?str_app_assoc. exact Qbody.
@@ -176,7 +184,7 @@ Proof.
   (* the material tokens *)
   set (R2 := rho_text rho ++ G).
   assert (HR2hd : head_sat nonblank R2 = false).
-  { unfold R2. destruct rho as [[g2 r]|]; reflexivity. }
+  { unfold R2. destruct rho as [[g2 r]|]; [reflexivity|]. cbn [rho_text append]. now apply HGvoid. }
   assert (Hbody : card_body name g1 mat rho g3 E = name ++ blanks (S g1) ++ mat ++ R2).
   { unfold card_body, R2, G. rewrite ?str_app_assoc. reflexivity. }
   assert (Fnb_name : str_forall nonblank name = true).
@@ -198,7 +206,10 @@ Proof.
       + cbn [append]. unfold G. rewrite ?str_app_assoc, skip_blanks_blanks.
         destruct E as [|c E']; [congruence|]. cbn in HEhd. unfold nonblank in HEhd. apply negb_true_iff in HEhd.
         cbn [append skip_blanks]. rewrite HEhd. reflexivity.
-    - unfold R2. destruct rho as [[g2 r]|]; reflexivity. }
+    - assert (HR2ne : R2 <> "").
+      { unfold R2, G. destruct rho as [[g2 r]|]; [discriminate|]. cbn [rho_text append].
+        destruct g3; [|discriminate]. exact ENe. }
+      rewrite head_sat_app by exact HR2ne. exact HR2hd. }
   rewrite Hfields. cbn [Nat.ltb Nat.leb]. rewrite Hfind. rewrite Hbody.
   rewrite (skip_blanks_nonblank_head (name ++ _)) by (rewrite head_sat_app by assumption; now apply head_forall).
   rewrite <- all_digits_forall in Fname.
@@ -229,7 +240,7 @@ Proof.
       apply (str_forall_impl rho_char); [|exact Hr]. intros c Hc. now destruct (rho_char_facts c Hc) as (_ & _ & ?). }
     rewrite (skip_blanks_nonblank_head _ Fr_nb).
     rewrite (span_while_app density_char r G); [|
-      apply (str_forall_impl rho_char); [|exact Hr]; intros c Hc; now destruct (rho_char_facts c Hc) as (_ & ? & _)|reflexivity].
+      apply (str_forall_impl rho_char); [|exact Hr]; intros c Hc; now destruct (rho_char_facts c Hc) as (_ & ? & _)|exact HGden].
     destruct r; [congruence|reflexivity].
   - rewrite Hrho. unfold R2. reflexivity.
 Qed.
@@ -292,14 +303,14 @@ Theorem card_geometry name g1 mat rho g3 (e : mexpr) w r trail opts :
   let ws := (0, w) :: r in
   digits_ok name = true -> mat_ok mat rho ->
   wf_written ws = true -> tokens_written ws = toks 0 e ->
-  opts_ok (render ws trail) opts ->
+  sep_ok rho g3 (render ws trail) -> opts_ok (render ws trail) opts ->
   exists geom, split_card (card_body name g1 mat rho g3 (render ws trail) ++ opts) = Ok (geom, opts) /\
                get_ast geom = psem e.
 Proof.
-  cbv zeta. intros Hname Hmat Hw Ht Hopts.
+  cbv zeta. intros Hname Hmat Hw Ht Hsep Hopts.
   assert (Hwt : wf_tok w = true).
   { cbn [wf_written] in Hw. apply andb_prop in Hw. destruct Hw as [Hw _]. apply andb_prop in Hw. now destruct Hw. }
-  exists (blanks (S g3) ++ render ((0, w) :: r) trail). split.
+  exists (blanks g3 ++ render ((0, w) :: r) trail). split.
   - apply split_card_wellformed; auto.
     + now apply render_expr.
     + now apply render_head.
